@@ -34,7 +34,10 @@ def ratio_trees(rnd, tier):
     out += [("int", 1), ("int", 1000), ("int", 299792458), ("mdiv", ("int", 1), ("int", 1000)), ("mdiv", ("int", 5), ("int", 9)), ("mdiv", ("int", 1250), ("int", 381)),
             ("int", 2 ** 63 + 29), ("int", 2 ** 64 - 59), ("mmul", ("int", 2 ** 64 - 59), ("int", 3)), ("pi",), ("mdiv", ("pi",), ("int", 180)), ("mroot", ("int", 2), 2),
             ("mpow", ("int", 10), 38), ("mpow", ("int", 10), 39), ("mpow", ("int", 10), 308), ("mpow", ("int", 10), 309), ("mpow", ("int", 10), -37),
-            ("mpow", ("int", 10), 4932), ("mpow", ("int", 10), 4933), ("mpow", ("int", 10), -34), ("mdiv", ("int", 662607015), ("mpow", ("int", 10), 42))]
+            ("mpow", ("int", 10), 4932), ("mpow", ("int", 10), 4933), ("mpow", ("int", 10), -34), ("mdiv", ("int", 662607015), ("mpow", ("int", 10), 42)),
+            # two distinct primes beyond 2^53 that round to the same double (and the same long double neighbourhood): ratio ~1, product ~5e36
+            ("mdiv", ("int", 2305843009213693951), ("int", 2305843009213693921)), ("mmul", ("int", 2305843009213693951), ("int", 2305843009213693921)),
+            ("mdiv", ("int", 18446744073709551557), ("int", 18446744073709551533))]
     for _ in range(10 if tier == "quick" else 200):
         out.append(c11.gen_random(rnd))
     return out
@@ -66,7 +69,7 @@ def run(chk, which="C16"):
             ("mdiv", ("int", 9), ("mpow", ("int", 10), 46)), ("mdiv", ("int", 3), ("mpow", ("int", 10), 325))]
     cases = []
     for ci, (cname, cexpr, hdr) in enumerate(cexprs):
-        sel = (ratios + subn) if tier == "thorough" else rnd.sample(ratios, 12) + [subn[(2 * ci) % len(subn)], subn[(2 * ci + 1) % len(subn)]]
+        sel = (ratios + subn) if tier == "thorough" else rnd.sample(ratios, 12) + [subn[(2 * ci) % len(subn)], subn[(2 * ci + 1) % len(subn)]] + ([ratios[-3 + ci % 3]] if ci % 2 == 0 else [])
         for rt in sel:
             m = model.mag_eval(rt)
             if any(abs(v.numerator) > 20000 or v.denominator > 12 for v in m.values()):
